@@ -15,6 +15,7 @@ import (
 
 	"golang.org/x/net/publicsuffix"
 
+	"github.com/google/inverting-proxy/agent/metrics"
 	"github.com/google/inverting-proxy/agent/sessions"
 	"github.com/google/inverting-proxy/zz_verif/vh"
 )
@@ -395,9 +396,32 @@ func suiteSessionsRace(e *vh.Env) {
 		if owner != "" {
 			w.Header().Add("Set-Cookie", "owner="+owner)
 		}
+		if r.Header.Get("X-Implicit") != "" {
+			w.Write([]byte("implicit 200")) // no WriteHeader: the session writer supplies the status and counts it
+			return
+		}
 		w.WriteHeader(200)
 	})
-	h := cache.SessionHandler(backend, nil)
+	// with response-code metrics on: a real MetricHandler (its monitoring client discards the data), emitting
+	// concurrently as its ticker would once per sample period
+	mh, err := metrics.VerifNewHandler()
+	if err != nil {
+		panic(err)
+	}
+	stopEmit := make(chan struct{})
+	go func() {
+		for {
+			select {
+			case <-stopEmit:
+				return
+			default:
+				metrics.VerifEmit(mh)
+				time.Sleep(200 * time.Microsecond)
+			}
+		}
+	}()
+	defer close(stopEmit)
+	h := cache.SessionHandler(backend, mh)
 	workers, per := 32, e.N(300, 3000)
 	var wg sync.WaitGroup
 	for g := 0; g < workers; g++ {
@@ -410,6 +434,9 @@ func suiteSessionsRace(e *vh.Env) {
 				req := httptest.NewRequest("GET", "http://app.example/", nil)
 				req.Host = "app.example"
 				req.Header.Set("X-Owner", owner)
+				if k%3 == 1 {
+					req.Header.Set("X-Implicit", "1")
+				}
 				if sid != "" {
 					req.Header.Set("Cookie", sessName+"="+sid)
 				}
